@@ -25,6 +25,13 @@ type rewrite struct {
 	// Selects: rewrite every select statement of the file into a vsel.Select call
 	// (the choice among ready arms becomes something a harness can own).
 	Selects bool `json:"selects"`
+	// Replace: exact one-line source replacements (each must occur exactly once;
+	// otherwise it is skipped with a warning - the tree may have been edited).
+	Replace []struct {
+		Old    string `json:"old"`
+		New    string `json:"new"`
+		Import string `json:"import"` // shim package the new text needs
+	} `json:"replace"`
 }
 
 type spec struct {
@@ -118,6 +125,7 @@ func main() {
 	}
 	merged := map[string]map[string]string{}
 	selects := map[string]bool{}
+	repls := map[string][]rewrite{}
 	var order []string
 	for _, r := range rules {
 		if merged[r.File] == nil {
@@ -130,6 +138,9 @@ func main() {
 		if r.Selects {
 			selects[r.File] = true
 		}
+		if len(r.Replace) > 0 {
+			repls[r.File] = append(repls[r.File], r)
+		}
 	}
 	for _, f := range order {
 		src := filepath.Join(*repo, f)
@@ -141,6 +152,23 @@ func main() {
 		outData, n, err := rewriteImports(src, data, merged[f])
 		if err != nil {
 			die("%s: %v", f, err)
+		}
+		for _, rr := range repls[f] {
+			for _, e := range rr.Replace {
+				if c := strings.Count(string(outData), e.Old); c != 1 {
+					fmt.Fprintf(os.Stderr, "mkoverlay: %s: %q occurs %d times, replacement skipped\n", f, e.Old, c)
+					continue
+				}
+				outData = []byte(strings.Replace(string(outData), e.Old, e.New, 1))
+				if e.Import != "" {
+					var err error
+					outData, err = addImport(f, outData, e.Import)
+					if err != nil {
+						die("%s: %v", f, err)
+					}
+				}
+				n++
+			}
 		}
 		if selects[f] {
 			var ns int
@@ -351,4 +379,35 @@ func rewriteSelects(name string, data []byte) ([]byte, int, error) {
 		out = append(out[:e.start], append([]byte(e.text), out[e.end:]...)...)
 	}
 	return out, count, nil
+}
+
+// addImport adds an import of a shim package (named after its last element) on
+// the line of the first import declaration, unless it is there already.
+func addImport(name string, data []byte, pkg string) ([]byte, error) {
+	full := shimPrefix + pkg
+	if strings.Contains(string(data), strconv.Quote(full)) {
+		return data, nil
+	}
+	fset := token.NewFileSet()
+	f, err := parser.ParseFile(fset, name, data, parser.ImportsOnly)
+	if err != nil {
+		return nil, err
+	}
+	for _, d := range f.Decls {
+		if g, ok := d.(*ast.GenDecl); ok && g.Tok == token.IMPORT {
+			var at int
+			var text string
+			if g.Lparen.IsValid() {
+				at = fset.Position(g.Lparen).Offset + 1
+				text = pkg + " " + strconv.Quote(full) + ";"
+			} else {
+				at = fset.Position(g.Pos()).Offset
+				text = "import " + pkg + " " + strconv.Quote(full) + ";"
+			}
+			out := append([]byte{}, data[:at]...)
+			out = append(out, text...)
+			return append(out, data[at:]...), nil
+		}
+	}
+	return nil, fmt.Errorf("no import declaration")
 }
